@@ -5,9 +5,12 @@
   What is proven here, for every input of the model: the type dispatch of the event enums
   (`dispatch`, generated `match` of `event_enum!`), redaction detection, the state/message-like
   split of the timeline enums, `Raw::get_field` against a full parse, `Raw`'s text. What is NOT
-  proven here: the per-type field code that runs after the dispatch (serde derives of ≈150 content
-  types); its fixpoint / value-preservation clauses are sampled on the real code (T3), see
-  `props/C18.json`.
+  here but in `Props/C18Schema.lean` (imported; its theorems are listed at the end of this file): the
+  per-type field code that runs after the dispatch, as a schema-driven model of serde's derive
+  (`Model/ContentSchema.lean`) — fixpoint, no duplicate keys, value preservation, key-order and
+  unknown-field independence for every schema and every JSON value; tied to the content types whose
+  (de)serialisation is derived by the `c18.schema` correspondence. Content types with hand-written
+  (de)serialisation stay under the T3 oracles only, see `props/C18.json`.
 
   Reading guide. `dispatch tbl e o`: the model of `serde_json::from_str::<e>` up to the choice of
   the variant, for the event object `o` (entry list in text order, duplicates possible).
@@ -18,6 +21,7 @@
 import RumaModel.Lemmas.EventDispatch
 import RumaModel.Spec.EventTypes
 import RumaModel.Generated.C18
+import RumaModel.Props.C18Schema
 namespace Ruma.Props.C18
 open Ruma Ruma.EventDispatch Ruma.Spec.EventTypes
 
@@ -707,4 +711,13 @@ example : rawText (bs " \n{\"a\" : 1 }\t") = bs "{\"a\" : 1 }" := by rfl
 #print axioms getField_last
 #print axioms getField_none_iff
 #print axioms raw_text_verbatim
+#print axioms Ruma.Props.C18Schema.roundtrip_fixpoint
+#print axioms Ruma.Props.C18Schema.ser_deser_idempotent
+#print axioms Ruma.Props.C18Schema.ser_no_duplicate_keys
+#print axioms Ruma.Props.C18Schema.present_values_preserved_partial
+#print axioms Ruma.Props.C18Schema.present_leaf_verbatim
+#print axioms Ruma.Props.C18Schema.key_order_independent
+#print axioms Ruma.Props.C18Schema.unknown_fields_never_fail
+#print axioms Ruma.Props.C18Schema.unknown_fields_never_fail_catch_all
+#print axioms Ruma.Props.C18Schema.Examples.presentValuesPreservedStatement_false
 end Ruma.Props.C18
